@@ -49,6 +49,21 @@ var c06Projects = []struct{ Name, Text string }{
 	{"tags-and-servers", "JSIGHT 0.3\nSERVER @s1\n  BaseUrl \"http://a\"\nSERVER @s2\n  BaseUrl \"http://b\"\nSERVER @s3\n  BaseUrl \"http://c\"\nTAG @t1\nTAG @t2\nTAG @t3\nGET /a\n  Tags @t3 @t1 @t2\n  200 any\nGET /b\n  200 any\nGET /c\n  200 any\n"},
 	{"or-types", "JSIGHT 0.3\nTYPE @x\n 1\nTYPE @y\n \"s\"\nTYPE @z\n true\nGET /o\n  200\n  {\"p\": @x | @y | @z, \"q\": @z | @x}\n"},
 	{"regex-types", "JSIGHT 0.3\nTYPE @r1 regex\n/a+/\nTYPE @r2 regex\n/b+/\nTYPE @r3 regex\n/c+/\nGET /r\n  200\n  {\"a\": @r1, \"b\": @r2, \"c\": @r3}\n"},
+	{"dup-type-names-x3", "JSIGHT 0.3\nTYPE @cow any\nTYPE @pig any\nTYPE @hen any\nTYPE @pig any\nTYPE @hen any\nTYPE @cow any\n"},
+	{"dup-enum-names-x3", "JSIGHT 0.3\nENUM @a\n[1]\nENUM @b\n[1]\nENUM @c\n[1]\nENUM @c\n[2]\nENUM @a\n[2]\nENUM @b\n[2]\n"},
+	{"dup-server-tag-macro", "JSIGHT 0.3\nSERVER @s1\n  BaseUrl \"a\"\nSERVER @s2\n  BaseUrl \"b\"\nTAG @t1\nTAG @t2\nTAG @t2\nTAG @t1\nSERVER @s2\n  BaseUrl \"c\"\nSERVER @s1\n  BaseUrl \"d\"\n"},
+	{"dup-macros-x3", "JSIGHT 0.3\nMACRO @a\n(\n TYPE @x any\n)\nMACRO @b\n(\n TYPE @y any\n)\nMACRO @b\n(\n TYPE @y2 any\n)\nMACRO @a\n(\n TYPE @x2 any\n)\n"},
+	{"dup-interactions-x3", "JSIGHT 0.3\nGET /a\n  200 any\nGET /b\n  200 any\nGET /c\n  200 any\nGET /c\n  200 any\nGET /a\n  200 any\nGET /b\n  200 any\n"},
+	{"dup-operation-ids", "JSIGHT 0.3\nGET /a\n  OperationId one\n  200 any\nGET /b\n  OperationId two\n  200 any\nGET /c\n  OperationId two\n  200 any\nGET /d\n  OperationId one\n  200 any\n"},
+	{"undefined-tags-x3", "JSIGHT 0.3\nGET /a\n  Tags @n1 @n2 @n3\n  200 any\nGET /b\n  Tags @n3 @n1\n  200 any\n"},
+	{"undefined-macros-x3", "JSIGHT 0.3\nTAG @t\nPASTE @n1\nTAG @u\nPASTE @n2\nTAG @v\nPASTE @n3\n"},
+	{"missing-bodies-x3", "JSIGHT 0.3\nGET /a\n  200\n    Headers\n    {\"h\": \"1\"}\nGET /b\n  201\n    Headers\n    {\"h\": \"1\"}\nPOST /c\n  Request\n    Headers\n    {\"h\": \"1\"}\n  200 any\n"},
+	{"similar-paths-x3", "JSIGHT 0.3\nGET /a/{x}\n  200 any\nGET /b/{x}\n  200 any\nGET /b/{y}\n  200 any\nGET /a/{y}\n  200 any\n"},
+	{"headers-not-objects-x3", "JSIGHT 0.3\nTYPE @n\n 1\nGET /a\n  Request\n    Headers @n\n    Body any\n  200\n    Headers @n\n    Body any\n  201\n    Headers @n\n    Body any\n"},
+	{"path-unknown-types-x3", "JSIGHT 0.3\nGET /a/{x}/{y}/{z}\n  Path\n  {\"x\": @n1, \"y\": @n2, \"z\": @n3}\n  200 any\n"},
+	{"allof-unknown-x3", "JSIGHT 0.3\nTYPE @d\n{ // {allOf: [\"@n1\", \"@n2\", \"@n3\"]}\n \"q\": 1\n}\nGET /d\n  200 @d\n"},
+	{"forbidden-annotations-x3", "JSIGHT 0.3\nURL /a // one\n  GET\n    Query // two\n    {}\n    200 any\nURL /b // three\n  GET\n    200 any\n"},
+	{"two-protocols-two-urls", "JSIGHT 0.3\nURL /r1\n  Protocol json-rpc-2.0\n  Protocol json-rpc-2.0\n  Method a\n    Params\n    {}\nURL /r2\n  Protocol json-rpc-2.0\n  Protocol json-rpc-2.0\n  Method b\n    Params\n    {}\n"},
 	{"openapi-rich", "JSIGHT 0.3\nTYPE @t1\n{\"a\": 1}\nTYPE @t2\n{\"b\": @t1}\nTYPE @t3\n{\"c\": @t2}\nGET /a/{id}\n  Query\n  {\"q1\": 1, \"q2\": 2, \"q3\": 3}\n  Request\n    Headers\n    {\"H1\": \"1\", \"H2\": \"2\", \"H3\": \"3\"}\n    Body @t3\n  200 @t1\n  404 @t2\n  500 @t3\n"},
 }
 
